@@ -28,6 +28,7 @@ import workerloop  # noqa: E402
 import blockloop  # noqa: E402
 import spawnflow  # noqa: E402
 import runtimeloop  # noqa: E402
+import steploop  # noqa: E402
 import replay as rp  # noqa: E402
 import validate as tv  # noqa: E402
 
@@ -375,6 +376,21 @@ def run(pid, tier, seed, replay_path=None):
                     inconclusive.append(o["obligation"] + ": " + o["result"])
             if not bm.spawns_timeout_thread():
                 inconclusive.append("JobBroker::new does not spawn the timeout closure any more")
+        elif pid == "C06":
+            res, sinfo = steploop.obligations(mir_text)
+            info["actor_step"] = sinfo
+            for k, v in sinfo.items():
+                info["functions_encoded"].append(f"actor::model::ActorModel::{k} ({v['blocks']} basic blocks, {v['paths']} paths; MIR sha256 {hashlib.sha256((steploop.find(mir_text, k) or '').encode()).hexdigest()[:12]})")
+            seen_kinds = set()
+            for o in res:
+                add(o["obligation"], o["result"], **({"witness": o["witness"]} if o.get("witness") else {}))
+                kind = o["obligation"].split(": ", 2)[-1]
+                if o["result"] == "sat":
+                    if kind not in seen_kinds:
+                        seen_kinds.add(kind)
+                        violations.append({"property": pid, "obligation": o["obligation"], "static": True, "witness": o.get("witness")})
+                elif o["result"] != "unsat":
+                    inconclusive.append(o["obligation"] + ": " + o["result"])
         elif pid == "C13":
             cbs = blockloop.find_check_blocks(mir_text)
             if "bfs" not in cbs:
@@ -695,6 +711,115 @@ fn verif_worker_leaves_only_for_a_stop_reason() {
             let n = if dfs { b.spawn_dfs().join().state_count() } else { b.spawn_bfs().join().state_count() };
             assert!(n >= 1500, "VIOLATION worker left without a stop reason: threads={} dfs={} generated {} states, target 1500", threads, dfs, n);
         }
+    }
+}
+'''
+
+STEP_TEST = r'''
+use stateright::actor::{Actor, ActorModel, ActorModelAction, ActorModelState, Envelope, Id, Network, Out};
+use stateright::Model;
+use std::borrow::Cow;
+use std::sync::atomic::{AtomicUsize, Ordering};
+
+static CALLS: AtomicUsize = AtomicUsize::new(0);
+
+/// Actor 0 reacts; actor 1 is passive.  History = list of hook calls.
+#[derive(Clone)]
+struct P { reacts: bool }
+impl Actor for P {
+    type Msg = u8;
+    type State = u32;
+    type Timer = u8;
+    type Random = u8;
+    fn on_start(&self, _id: Id, o: &mut Out<Self>) -> u32 {
+        if self.reacts { o.set_timer(1, std::time::Duration::from_secs(1)..std::time::Duration::from_secs(1)); o.set_timer(2, std::time::Duration::from_secs(1)..std::time::Duration::from_secs(1)); o.choose_random("k", vec![5, 6]); o.choose_random("j", vec![7]); }
+        0
+    }
+    fn on_msg(&self, _id: Id, state: &mut Cow<u32>, src: Id, msg: u8, o: &mut Out<Self>) {
+        CALLS.fetch_add(1, Ordering::SeqCst);
+        if !self.reacts || msg == 0 { return; }
+        *state.to_mut() += msg as u32;
+        o.send(src, msg + 1);
+        o.send(Id::from(1usize), msg + 2);
+        o.cancel_timer(2);
+        o.set_timer(3, std::time::Duration::from_secs(1)..std::time::Duration::from_secs(1));
+    }
+    fn on_timeout(&self, _id: Id, state: &mut Cow<u32>, timer: &u8, o: &mut Out<Self>) {
+        CALLS.fetch_add(1, Ordering::SeqCst);
+        *state.to_mut() += 100 + *timer as u32;
+        o.send(Id::from(1usize), 50);
+    }
+    fn on_random(&self, _id: Id, state: &mut Cow<u32>, random: &u8, o: &mut Out<Self>) {
+        CALLS.fetch_add(1, Ordering::SeqCst);
+        *state.to_mut() += 1000 + *random as u32;
+        if *random != 5 { o.send(Id::from(1usize), 60); }
+    }
+}
+
+type H = Vec<String>;
+fn model(net: Network<u8>) -> ActorModel<P, (), H> {
+    ActorModel::new((), Vec::new())
+        .actor(P { reacts: true })
+        .actor(P { reacts: false })
+        .init_network(net)
+        .max_crashes(1)
+        .record_msg_in(|_, h: &H, e: Envelope<&u8>| { let mut h = h.clone(); h.push(format!("in {:?}->{:?} {}", e.src, e.dst, e.msg)); Some(h) })
+        .record_msg_out(|_, h: &H, e: Envelope<&u8>| { let mut h = h.clone(); h.push(format!("out {:?}->{:?} {}", e.src, e.dst, e.msg)); Some(h) })
+}
+fn envs(s: &ActorModelState<P, H>) -> Vec<(usize, usize, u8)> {
+    let mut v: Vec<_> = s.network.iter_deliverable().map(|e| (usize::from(e.src), usize::from(e.dst), *e.msg)).collect();
+    v.sort();
+    v
+}
+fn bad(what: &str) -> ! { panic!("VIOLATION actor step: {}", what) }
+
+#[test]
+fn verif_actor_step_is_one_atomic_handler_step() {
+    let a0 = Id::from(0usize);
+    let a1 = Id::from(1usize);
+    for ordered in [false, true] {
+        let init = vec![Envelope { src: a1, dst: a0, msg: 3u8 }, Envelope { src: a1, dst: a0, msg: 0u8 }];
+        let m = model(if ordered { Network::new_ordered(init) } else { Network::new_unordered_nonduplicating(init) });
+        let s0 = m.init_states().pop().unwrap();
+        let before = format!("{:?}", s0);
+        // ---- Deliver 3: one handler call; state replaced; sends in order; timers as commanded; hooks in/out/out
+        CALLS.store(0, Ordering::SeqCst);
+        let s1 = m.next_state(&s0, ActorModelAction::Deliver { src: a1, dst: a0, msg: 3 }).unwrap_or_else(|| bad("a delivery that changes things yields a transition"));
+        if CALLS.load(Ordering::SeqCst) != 1 { bad("exactly one handler invocation per transition"); }
+        if format!("{:?}", s0) != before { bad("the last state is not modified"); }
+        if *s1.actor_states[0] != 3 || *s1.actor_states[1] != 0 { bad("the actor's new local state replaces the old one, others unchanged"); }
+        let mut want = vec![(0, 1, 4u8), (0, 1, 5), (1, 0, 0)];
+        want.sort();
+        if ordered { want = vec![(0, 1, 4u8), (1, 0, 0)]; }
+        if envs(&s1) != want || s1.network.len() != 3 { bad(&format!("the delivered envelope is consumed and the sends enter the network (deliverable {:?}, len {})", envs(&s1), s1.network.len())); }
+        let t: Vec<u8> = { let mut v: Vec<u8> = s1.timers_set[0].iter().copied().collect(); v.sort(); v };
+        if t != vec![1, 3] { bad("timers are set and cancelled as commanded"); }
+        if s1.history != vec!["in Id(1)->Id(0) 3".to_string(), "out Id(0)->Id(1) 4".to_string(), "out Id(0)->Id(1) 5".to_string()] { bad("history hooks see the received message first, then each sent message in order"); }
+        if s1.crashed != s0.crashed || s1.timers_set[1].iter().count() != 0 { bad("nothing else in the system state changes"); }
+        // ---- Deliver 0: a delivery that changes nothing: no transition on unordered networks, a transition (message consumed) on ordered ones
+        let r = m.next_state(&s0, ActorModelAction::Deliver { src: a1, dst: a0, msg: 0 });
+        if !ordered && r.is_some() { bad("a delivery that changes nothing yields no transition on unordered networks"); }
+        if ordered { if let Some(r) = r { if r.history != vec!["in Id(1)->Id(0) 0".to_string()] || *r.actor_states[0] != 0 { bad("a no-op delivery on an ordered network only consumes the message"); } } else { bad("a no-op delivery on an ordered network still consumes the message"); } }
+        // ---- Timeout(1): fired timer consumed, other timer kept, one handler call, send recorded
+        CALLS.store(0, Ordering::SeqCst);
+        let s2 = m.next_state(&s0, ActorModelAction::Timeout(a0, 1)).unwrap_or_else(|| bad("timeout yields a transition"));
+        if CALLS.load(Ordering::SeqCst) != 1 { bad("exactly one handler invocation per transition (timeout)"); }
+        let t: Vec<u8> = { let mut v: Vec<u8> = s2.timers_set[0].iter().copied().collect(); v.sort(); v };
+        if t != vec![2] || *s2.actor_states[0] != 101 { bad("the fired timer is consumed and the new state installed"); }
+        if s2.history != vec!["out Id(0)->Id(1) 50".to_string()] { bad("a timeout records only its sends"); }
+        // ---- SelectRandom: selected choice consumed, the other key kept
+        CALLS.store(0, Ordering::SeqCst);
+        let s3 = m.next_state(&s0, ActorModelAction::SelectRandom { actor: a0, key: "k".to_string(), random: 6 }).unwrap_or_else(|| bad("random selection yields a transition"));
+        if CALLS.load(Ordering::SeqCst) != 1 || *s3.actor_states[0] != 1006 { bad("exactly one handler invocation per transition (random), new state installed"); }
+        if s3.random_choices[0].map.contains_key("k") || !s3.random_choices[0].map.contains_key("j") { bad("the selected choice is consumed, other choices kept"); }
+        CALLS.store(0, Ordering::SeqCst);
+        let s3b = m.next_state(&s0, ActorModelAction::SelectRandom { actor: a0, key: "k".to_string(), random: 5 }).unwrap_or_else(|| bad("random selection yields a transition"));
+        if CALLS.load(Ordering::SeqCst) != 1 || *s3b.actor_states[0] != 1005 || s3b.network.len() != s0.network.len() { bad("exactly one handler invocation per transition (random without commands)"); }
+        // ---- Crash / Drop: no handler
+        CALLS.store(0, Ordering::SeqCst);
+        let s4 = m.next_state(&s0, ActorModelAction::Crash(a0)).unwrap_or_else(|| bad("crash yields a transition"));
+        if CALLS.load(Ordering::SeqCst) != 0 || !s4.crashed[0] || s4.timers_set[0].iter().count() != 0 || !s4.random_choices[0].map.is_empty() { bad("a crash invokes no handler, sets the flag and discards timers and choices"); }
+        if envs(&s4) != envs(&s0) || s4.history != s0.history || *s4.actor_states[0] != 0 { bad("a crash changes nothing else"); }
     }
 }
 '''
@@ -1023,6 +1148,8 @@ def replay_static(d, pid, v):
             return _WORKER_REPLAYS[code]
         finally:
             os.remove(tp)
+    if pid == "C06":
+        return _integration_test(d, v, STEP_TEST, "verif_actor_step", "VIOLATION actor step")
     if pid == "C17":
         return _integration_test(d, v, RUNTIME_TEST, "verif_udp_runtime", "VIOLATION udp runtime")
     if " spawn: " in v["obligation"] and pid == "C12":
